@@ -374,7 +374,12 @@ class Check:
         ev = {
             'property_id': self.prop, 'tier': self.tier, 'seed': self.seed, 'level': 'proof',
             'coverage': {
-                'obligations': len(self.obligations), 'discharged': len(proved),
+                # obligations of kind 'bounded' (fixed rank / arity stand-ins) are decided like the others but are not
+                # counted as proof: they are reported under bounded_checks
+                'obligations': len([o for o in self.obligations if o.kind != 'bounded']),
+                'discharged': len([o for o in proved if o.kind != 'bounded']),
+                'bounded_obligations': {'stated': len([o for o in self.obligations if o.kind == 'bounded']),
+                                        'discharged': len([o for o in proved if o.kind == 'bounded'])},
                 'refuted_under_listed_findings': len(finding_obs),
                 'checker_cmd': f'./vf check {self.prop} --tier {self.tier}',
                 'trusted_base': sorted(self.trusted),
